@@ -210,13 +210,38 @@ Definition submit (k : kind) : op := OSend (funnel_chan (funnel_of k)) (kind_cod
 
 (* what a stress configuration produces, per kind (same order as all_kinds):
    cfg = [peers; reqPerPeer; notifyPerPeer; responses; timeouts; timerProducers; perTimerProducer;
-          posters; perPoster; publishers; localPerPublisher; globalPerPublisher; conns; msgsPerConn] *)
+          posters; perPoster; publishers; localPerPublisher; globalPerPublisher; conns; msgsPerConn;
+          mode;                       0 plain | 1 the service actor is crashed and restarted first
+                                      | 2 the same props is spawned twice (two actors, one run service)
+          ovLocal; ovGlobal; ovPost; ovTimer; ovSessMsg; ovRequest]
+   The ov* entries are an OVERFLOW phase that comes first: the service is held inside a handler
+   while foreign goroutines produce that many items of the kind - more than the queue holds
+   (event queue, scheduler queue, timer queue: 999).  Producers block on a full queue, except
+   GlobalEventCenter.Publish, which drops (the property allows that); local and global events
+   share one queue, so only one of them overflows in a case (ovLocal wins). *)
 Definition cfgn (cfg : list Z) (i : nat) : Z := Z.max 0 (nth i cfg 0).
-Definition expected (cfg : list Z) : list Z :=
+Definition ov_global (cfg : list Z) : Z :=
+  if 0 <? cfgn cfg 15 then 0 else cfgn cfg 16.
+Definition ov_sess (cfg : list Z) : Z := if 0 <? cfgn cfg 19 then 1 else 0.
+
+Definition base_counts (cfg : list Z) : list Z :=
   let n := cfgn cfg in
   [n 0%nat * n 1%nat; n 0%nat * n 2%nat; n 3%nat; n 4%nat; n 5%nat * n 6%nat;
    n 7%nat * n 8%nat + n 3%nat + n 4%nat;
    n 9%nat * n 10%nat; n 9%nat * n 11%nat; n 12%nat; n 12%nat; n 12%nat * n 13%nat].
+
+Definition ov_counts (cfg : list Z) : list Z :=
+  let n := cfgn cfg in
+  [n 20%nat; 0; 0; 0; n 18%nat; n 17%nat; n 15%nat; ov_global cfg; ov_sess cfg; ov_sess cfg; n 19%nat].
+
+Fixpoint zip_add (a b : list Z) : list Z :=
+  match a, b with
+  | x :: ar, y :: br => (x + y) :: zip_add ar br
+  | _, _ => []
+  end.
+
+(* calls made by the producers *)
+Definition produced (cfg : list Z) : list Z := zip_add (base_counts cfg) (ov_counts cfg).
 
 (* ---- step / run ---- *)
 (* selectors whose case is ready in the current cases *)
@@ -269,12 +294,53 @@ Fixpoint plain_from (s : st) (ops : list op) : st * list ev :=
       (s2, e :: es)
   end.
 
-(* the service machine of a stress case: build the service, drain the wake-up tokens, then
-   every produced item is submitted on its funnel and the consumer runs once *)
+(* the service machine of a stress case: build the service, drain the wake-up tokens;
+   overflow phase: the consumer does not run while the items are submitted - a submission
+   that finds its funnel full is a blocked producer (a dropped event for KGlobalEvent);
+   after the release the consumer runs, and every time it has taken a value from a channel
+   one producer blocked on that channel gets through;
+   then every remaining item is submitted on its funnel and the consumer runs once *)
 Fixpoint drain_first (n : nat) (s : st) : st :=
   match n with
   | O => s
   | S m => drain_first m (fst (handle s (first_ready s)))
+  end.
+
+Definition is_global (k : kind) : bool := match k with KGlobalEvent => true | _ => false end.
+
+Fixpoint held_submit (s : st) (items blocked : list kind) : st * list kind :=
+  match items with
+  | [] => (s, rev blocked)
+  | k :: r =>
+      let '(s1, e) := plain_step s (submit k) in
+      match e with
+      | EFull => held_submit s r (if is_global k then blocked else k :: blocked)
+      | _ => held_submit s1 r blocked
+      end
+  end.
+
+(* the first producer blocked on channel c gets through *)
+Fixpoint unblock (s : st) (c : Z) (blocked : list kind) : st * list kind :=
+  match blocked with
+  | [] => (s, [])
+  | k :: r =>
+      if Z.eqb (funnel_chan (funnel_of k)) c
+      then (fst (plain_step s (submit k)), r)
+      else let '(s1, b) := unblock s c r in (s1, k :: b)
+  end.
+
+Fixpoint release (fuel : nat) (s : st) (blocked : list kind) : list Z * st :=
+  match fuel with
+  | O => ([], s)
+  | S f =>
+      let '(s1, e) := handle s (first_ready s) in
+      match e with
+      | ERan _ c v true =>
+          let '(s2, b) := unblock s1 c blocked in
+          let '(l, s3) := release f s2 b in
+          ((if Z.eqb c 0 then l else v :: l), s3)
+      | _ => ([], s1)
+      end
   end.
 
 Fixpoint feed (s : st) (items : list kind) : list Z :=   (* the values handled, in order *)
@@ -299,12 +365,26 @@ Definition zcountZ (x : Z) (l : list Z) : Z := Z.of_nat (zcount x l).
 
 Definition stress_executed (cfg : list Z) : list Z :=
   let s0 := drain_first 12 (fst (plain_from init service_ops)) in
-  let done := feed s0 (items_of all_kinds (expected cfg)) in
-  map (fun k => zcountZ (kind_code k) done) all_kinds.
+  let ov := items_of all_kinds (ov_counts cfg) in
+  let '(s1, blocked) := held_submit s0 ov [] in
+  let '(done1, s2) := release (S (length ov)) s1 blocked in
+  let done2 := feed s2 (items_of all_kinds (base_counts cfg)) in
+  map (fun k => zcountZ (kind_code k) (done1 ++ done2)) all_kinds.
+
+(* the same numbers in closed form: everything produced, minus the global events dropped
+   on the full queue *)
+Definition expected (cfg : list Z) : list Z :=
+  zip_add (base_counts cfg)
+          (map (fun kn => if is_global (fst kn) then Z.min (snd kn) max_cap else snd kn)
+               (combine all_kinds (ov_counts cfg))).
+
+Arguments stress_executed : simpl never.
+Arguments produced : simpl never.
+Arguments expected : simpl never.
 
 Definition step (s : st) (o : op) : st * ev :=
   match o with
-  | OStress _ cfg => (s, EStress (repeat 0 12) true (expected cfg) (stress_executed cfg))
+  | OStress _ cfg => (s, EStress (repeat 0 12) true (produced cfg) (stress_executed cfg))
   | _ => plain_step s o
   end.
 
